@@ -181,6 +181,12 @@ func (check) Run(seed int64, tier string, idx int, verbose bool) harness.Result 
 	// typed deep reads of a second, independently drawn configuration (own
 	// random stream: the graphs above stay what they were)
 	runTyped(res, rand.New(rand.NewSource(harness.Mix(seed, "C08/typed", idx))), verbose, idx < enumCases()+2)
+	// paths through reference-valued settings, slice targets, histories
+	runPaths(res, rand.New(rand.NewSource(harness.Mix(seed, "C08/paths", idx))), verbose)
+	runHistory(res, rand.New(rand.NewSource(harness.Mix(seed, "C08/hist", idx))), verbose)
+	if idx%10 == 0 {
+		runLadder(res, rand.New(rand.NewSource(harness.Mix(seed, "C08/ladder", idx))), verbose)
+	}
 	return res.Done()
 }
 
